@@ -36,7 +36,7 @@ static Plan gen_fileset(const std::string &prop, const std::string &tier, uint64
 	p.seti("rfilter", r.chance(1, 5) ? 1 + r.below(2) : 0);
 	p.seti("mfunc", r.chance(2, 3) ? 0 : 1 + r.below(3));	// merge function of the first handle: union / min / lcp / max
 	auto newver = [&]() {
-		std::vector<std::string> a{ std::to_string(r.below(2)) };
+		std::vector<std::string> a{ std::to_string(r.below(3)) };	// 0 rewrite in place (new mtime), 1 rename (new inode, new mtime), 2 rename within the same second (new inode, SAME mtime)
 		for (int i = 0; i < nfiles; i++) {
 			uint64_t d = r.below(10);
 			if (d < 5) a.push_back((r.chance(1, 3) ? "a" : "r") + std::to_string(i));
@@ -151,6 +151,7 @@ struct World {
 	Slot slots[MAXS];
 	std::set<Cand> C;
 	int n_iters = 0;
+	long mtime_sec = 0;
 	std::vector<Bytes> allkeys;
 	std::set<int> versions_seen;
 	std::set<int> handles_opened;
@@ -323,13 +324,17 @@ static RunResult exec_fileset(const Plan &p)
 			}
 			for (int i = 0; i < MAXF; i++) v.exists.push_back(w.files[i].made && !w.files[i].deleted);
 			int vn = (int)w.vers.size();
-			if (o.argi(0) == 1 && vn > 0) {	// replace by rename: new inode
+			long long how = o.argi(0) % 3;
+			if (how >= 1 && vn > 0) {	// replace by rename: new inode
 				std::string tmp = w.setpath + ".new";
 				write_file(tmp, sf);
 				rename(tmp.c_str(), w.setpath.c_str());
 				res.probes["setfile-replaced-by-rename"]++;
 			} else write_file(w.setpath, sf);
-			struct timespec ts[2] = { { 2000000 + vn, 0 }, { 2000000 + vn, 0 } };
+			// mtime in whole seconds: strictly increasing, except for a rename within the same second,
+			// which only the inode number reveals
+			if (how == 2 && vn > 0) res.probes["setfile-renamed-within-the-same-second"]++; else w.mtime_sec++;
+			struct timespec ts[2] = { { 2000000 + w.mtime_sec, 0 }, { 2000000 + w.mtime_sec, 0 } };
 			utimensat(AT_FDCWD, w.setpath.c_str(), ts, 0);
 			w.vers.push_back(v);
 			if (!inited) {
